@@ -348,8 +348,10 @@ pub fn history(seed: u64, steps: usize, scenes: &[u64], nobj: usize, rotated: bo
 }
 
 pub fn run_history(rec: &mut Recorder, calls: &[Call], only_scene: Option<u64>) {
-    for c in calls {
-        match c {
+    for (k, c) in calls.iter().enumerate() {
+        // a panic in the code under test is data: it ends the run with a PANIC event (no behaviour of the
+        // specification contains one)
+        let r = std::panic::catch_unwind(std::panic::AssertUnwindSafe(|| match c {
             Call::Predict(s, d) => {
                 if only_scene.map(|o| o == *s).unwrap_or(true) {
                     rec.predict(*s, d)
@@ -369,6 +371,19 @@ pub fn run_history(rec: &mut Recorder, calls: &[Call], only_scene: Option<u64>) 
             Call::Stats => rec.stats(),
             Call::Clear => rec.clear(),
             Call::SetAw(p) => rec.set_aw(*p),
+        }));
+        if r.is_err() {
+            let what = match c {
+                Call::Predict(..) => "predict",
+                Call::Skip(..) => "skip",
+                Call::Wasted => "wasted",
+                Call::Idle(..) => "idle",
+                Call::Stats => "stats",
+                Call::Clear => "clear",
+                Call::SetAw(..) => "setaw",
+            };
+            rec.lines.push(json!({"ev": "PANIC", "call": what, "index": k}));
+            return;
         }
     }
 }
